@@ -38,14 +38,27 @@ def _roundtrip(job):
         kw["password"] = opts["password"]
     old = os.getcwd()
     try:
-        if opts["entry"] == "shutil":
+        if opts["entry"] in ("shutil", "shutil-root"):
             import shutil as sh
             sh.register_archive_format("7zip", py7zr.pack_7zarchive, description="7zip archive")
             sh.register_unpack_format("7zip", [".7z"], py7zr.unpack_7zarchive)
             os.chdir(work)
-            sh.make_archive(os.path.join(work, "a"), "7zip", root_dir=work, base_dir="tree")
+            if opts["entry"] == "shutil":
+                sh.make_archive(os.path.join(work, "a"), "7zip", root_dir=work, base_dir="tree")
+                got_root = os.path.join(dest, "tree")
+            else:
+                # the tree itself is the archive root: a link to the top directory resolves to the destination itself
+                sh.make_archive(os.path.join(work, "a"), "7zip", root_dir=src)
+                got_root = dest
             sh.unpack_archive(arc, dest)
-            got_root = os.path.join(dest, "tree")
+        elif opts["entry"] == "api-dot":
+            os.chdir(src)
+            with py7zr.SevenZipFile(arc, "w", dereference=opts["dereference"], **kw) as z:
+                z.writeall(".")
+            os.chdir(work)
+            with py7zr.SevenZipFile(arc, "r", **kw) as z:
+                z.extractall(dest)
+            got_root = dest
         else:
             with py7zr.SevenZipFile(arc, "w", dereference=opts["dereference"], **kw) as z:
                 if opts["arcname"]:
@@ -166,15 +179,27 @@ def run(ctx):
             spec = trees.gen_tree(rng, depth=5, links=(i % 4 != 3), maxentries=rng.choice([3, 6, 10, 16]), names=names)
             opts = {"seed": rng.randrange(1 << 30), "password": (None if i % 5 else "pw"), "dereference": (i % 7 == 6),
                     "arcname": (None if i % 3 else "top/arc"), "dest": ("cwd" if i % 4 == 1 else "given"),
-                    "entry": ("shutil" if i % 9 == 8 else "api")}
+                    "entry": ("shutil" if i % 9 == 8 else "shutil-root" if i % 9 == 4 else "api-dot" if i % 9 in (2, 6) else "api")}
             upward = any(k == "link" and (p == "." or p.startswith("..") or os.path.normpath(os.path.join(os.path.dirname(r), p)) in ("", ".") or
                                           (r + "/").startswith(os.path.normpath(os.path.join(os.path.dirname(r), p)) + "/")) for r, k, p in spec)
             if upward:
                 opts["dereference"] = False      # a dereferenced link to an ancestor is an infinite tree: outside the property
-            if opts["entry"] == "shutil":
+            if opts["entry"] in ("shutil", "shutil-root"):
                 opts.update({"password": None, "dereference": False, "arcname": None, "dest": "given"})
+            if opts["entry"] == "api-dot":
+                opts.update({"arcname": None, "dest": "given"})
             jobs.append((spec, opts, tmp))
             meta.append((spec, opts))
+        # fixed shapes: links to the top of the tree from one and two levels down, every way of storing the tree
+        fixed = [("pkg", "dir", 0o755), ("pkg/f.txt", "file", (b"payload", 0o644)), ("pkg/top", "link", ".."), ("pkg/lib", "dir", 0o750),
+                 ("pkg/lib/top2", "link", "../.."), ("pkg/lib/up", "link", ".."), ("pkg/lib/g.bin", "file", (b"", 0o600)), ("empty", "dir", 0o700)]
+        for entry in ("api", "api-dot", "shutil", "shutil-root"):
+            for pw in (None, "pw"):
+                if pw and entry.startswith("shutil"):
+                    continue
+                opts = {"seed": 7, "password": pw, "dereference": False, "arcname": None, "dest": "given", "entry": entry}
+                jobs.append((fixed, opts, tmp))
+                meta.append((fixed, opts))
         res = sandbox.pmap(_roundtrip, jobs, timeout=180)
         for (spec, opts), (st_, val) in zip(meta, res):
             desc = [(r, k, (len(p[0]), oct(p[1])) if k == "file" else (oct(p) if k == "dir" else p)) for r, k, p in spec]
